@@ -1,4 +1,5 @@
 import SluProofs.Lemmas.History
+set_option linter.unusedSectionVars false
 /-
 C06 — Refactor / re-solve histories are as good as a fresh factorization.
 
@@ -78,6 +79,22 @@ theorem resolves_preserve_state (s : DriverState K Rat) (cs : List (Call K Rat))
     rw [runHistory_cons, (factored_step_preserves_factors s c (h c List.mem_cons_self)).1]
     exact ih s (fun c' hc' => h c' (List.mem_cons_of_mem _ hc'))
 
+/-- **C06 (a re-solve is as good as the solve of the factoring call).**  After a successful factoring
+call `c`, any number of re-solves later, a FACTORED call with right-hand sides `B` and `Trans = t`
+returns exactly what `c` itself would have returned for that `B` and `t`: re-solving loses nothing. -/
+theorem resolve_equals_solve_at_factor_time (s : DriverState K Rat) (c : Call K Rat) (hc : c.fact ≠ .FACTORED)
+    (hinfo : (stepCall s c).2.info = 0) (mid : List (Call K Rat)) (hmid : ∀ c' ∈ mid, c'.fact = .FACTORED)
+    (r : Call K Rat) (hr : r.fact = .FACTORED) :
+    (stepCall (runHistory (stepCall s c).1 mid).1 r).2.X =
+      (stepCall s { c with B := r.B, trans := r.trans }).2.X := by
+  rw [resolves_preserve_state _ mid hmid, stepCall_factored _ r hr]
+  have hc' : ({ c with B := r.B, trans := r.trans } : Call K Rat).fact ≠ .FACTORED := hc
+  have hsame : factorCall s { c with B := r.B, trans := r.trans } = factorCall s c := rfl
+  have h0 : (factorCall s c).fac.info = 0 := by rw [← (stepCall_factor_out s c hc).1]; exact hinfo
+  obtain ⟨_, h2, _⟩ := stepCall_factor_out s { c with B := r.B, trans := r.trans } hc'
+  rw [hsame] at h2
+  rw [(h2 h0).1, stepCall_factor_state s c hc]
+
 /-- **C06 (`history_all`).**  For every history (any length, any order of Fact values) whose factoring
 calls are legal, started in a state satisfying the invariant (e.g. `init`): the invariant holds after
 every call and at the end; every call's output is as specified by `OutSpec` — a FACTORED call leaves
@@ -132,7 +149,7 @@ theorem history_identity (laws : MagLaws K) (s0 : DriverState K Rat) (pre post :
 /-- **C06 (kept means kept).**  If a SamePattern_SameRowPerm call reports that every remembered pivot
 was kept (`reused`), the factorization succeeded and the new pivot sequence is exactly the remembered
 one: `perm_r` is unchanged. -/
-theorem reuse_kept_same_pivots (s : DriverState K Rat) (c : Call K Rat) (hf : c.fact ≠ .FACTORED)
+theorem reuse_kept_same_pivots (s : DriverState K Rat) (c : Call K Rat)
     (h : (factorCall s c).fac.usepr = true) :
     c.fact = .SamePattern_SameRowPerm ∧ (factorCall s c).fac.info = 0 ∧
     (factorCall s c).fac.piv = ((List.range c.n).map fun j => s.fac.piv.getD j 0).toArray := by
